@@ -4,6 +4,11 @@
 //
 //	root <hex of n*32 bytes | ->                       real crypto.ComputeRoot
 //	sanity <blockhex> <pre> <size> <special> <hdrRoot> <tx>...   real BlockChain.CheckBlockSanity
+//	orphan <depth> <k> <mutation> <pre> <size> <special> <hdrRoot> <tx>...
+//	    a regnet node (harness/regnet) mines genesis → b1 … b<depth>; the LAST block, with its
+//	    transaction list mutated under the unchanged header, is delivered FIRST through the real
+//	    BlockChain.ProcessBlock (its parent is unknown), then b1 … b<depth-1>. The tokens after
+//	    <mutation> describe the delivered block as in `sanity`.
 //	    <tx> = id,cb,sane,in1;in2;…   (oracle values recomputed and re-checked by Exec)
 package main
 
@@ -19,6 +24,7 @@ import (
 	"time"
 
 	"elaverif/harness/hx"
+	"elaverif/harness/regnet"
 
 	"github.com/elastos/Elastos.ELA/auxpow"
 	"github.com/elastos/Elastos.ELA/blockchain"
@@ -55,6 +61,9 @@ const fixtureBlockHex = "000000007b3a8b2032301d0f9fafadee3bddba8d798a3ce1ed15740
 	"bdc344fecf8ced8e4db627fb9ffa7068c51d3d15b92a749ffa407e2593833ec836d4cdaae1062abe52321035e1529938d1a36" +
 	"bef97806557bdb4faec8c83a8fc557c1afb287b07bd923c589ac"
 
+// parameters used by describe(): the fixture chain's, or the regnet node's inside an orphan op
+var descParams *config.Configuration
+
 var (
 	chainOnce sync.Once
 	chain     *blockchain.BlockChain
@@ -79,6 +88,7 @@ func getChain() *blockchain.BlockChain {
 		p.DPoSConfiguration.RevertToPOWStartHeight = 0
 		blockchain.FoundationAddress = *p.FoundationProgramHash
 		params = &p
+		descParams = &p
 		var err error
 		tmpDir, err = os.MkdirTemp("", "elaverif-c07-")
 		if err != nil {
@@ -154,7 +164,7 @@ func preOK(c *blockchain.BlockChain, b *types.Block) bool {
 	if !h.AuxPow.Check(&hash, auxpow.AuxPowChainID) {
 		return false
 	}
-	if blockchain.CheckProofOfWork(&h, params.PowConfiguration.PowLimit) != nil {
+	if blockchain.CheckProofOfWork(&h, descParams.PowConfiguration.PowLimit) != nil {
 		return false
 	}
 	t := time.Unix(int64(h.Timestamp), 0)
@@ -224,6 +234,165 @@ func classify(err error) string {
 	return "err other:" + m
 }
 
+// ---------------------------------------------------------------- orphan delivery on a regnet node
+
+func revertTx(w uint32) interfaces.Transaction {
+	return cloneTx(functions.CreateTransaction(common2.TxVersion09, common2.RevertToPOW, 0,
+		&payload.RevertToPOW{Type: payload.NoBlock, WorkingHeight: w}, nil, nil, nil, 0, nil))
+}
+
+// forgedList applies the mutation to the transaction list of the last block
+func forgedList(mut string, last, other *types.Block) []interfaces.Transaction {
+	txs := append([]interfaces.Transaction{}, last.Transactions...)
+	n := len(txs)
+	switch mut {
+	case "none":
+	case "duptail":
+		txs = append(txs, txs[n-1])
+	case "duppair":
+		if n >= 2 {
+			txs = append(txs, txs[n-2], txs[n-1])
+		}
+	case "dupmid":
+		if n >= 2 {
+			txs = append(txs[:2], txs[1:]...)
+		}
+	case "coinbase": // the coinbase of another block
+		txs[0] = other.Transactions[0]
+	case "remove":
+		if n >= 2 {
+			txs = txs[:n-1]
+		}
+	case "swap":
+		if n >= 3 {
+			txs[n-1], txs[n-2] = txs[n-2], txs[n-1]
+		}
+	case "cb2":
+		txs = append(txs, other.Transactions[0])
+	case "insert":
+		txs = append(txs, revertTx(0xfffffff0))
+	case "empty":
+		txs = nil
+	default:
+		panic("harness: unknown mutation " + mut)
+	}
+	return txs
+}
+
+// bound reports whether the block's transaction list belongs to its header (property statement,
+// reference definitions only)
+func bound(b *types.Block) bool {
+	if len(b.Transactions) == 0 {
+		return false
+	}
+	seen := map[common.Uint256]bool{}
+	ids := make([]common.Uint256, 0, len(b.Transactions))
+	for i, tx := range b.Transactions {
+		if (i == 0) != tx.IsCoinBaseTx() {
+			return false
+		}
+		id := tx.Hash()
+		if seen[id] {
+			return false
+		}
+		seen[id] = true
+		ids = append(ids, id)
+	}
+	return bytes.Equal(refRoot(ids), b.Header.MerkleRoot[:])
+}
+
+type orphanRun struct {
+	desc string // description of the delivered (possibly forged) block
+	out  string
+}
+
+func runOrphan(depth, k int, mut string) orphanRun {
+	getChain() // make sure the fixture chain's globals exist before they are saved
+	savedFA, savedLedger, savedDP, savedDesc := blockchain.FoundationAddress, blockchain.DefaultLedger, config.DefaultParams, descParams
+	defer func() {
+		blockchain.FoundationAddress, blockchain.DefaultLedger, config.DefaultParams, descParams = savedFA, savedLedger, savedDP, savedDesc
+	}()
+	dir, err := os.MkdirTemp("", "elaverif-c07-orphan-")
+	if err != nil {
+		panic("harness: " + err.Error())
+	}
+	defer os.RemoveAll(dir)
+	n, err := regnet.NewNode(dir, regnet.Options{NoPoolEvents: true, Tweak: func(p *config.Configuration) {
+		p.DPoSConfiguration.RevertToPOWStartHeight = 0
+	}})
+	if err != nil {
+		panic("harness: regnet: " + err.Error())
+	}
+	defer n.Close()
+	descParams = n.Params
+	blocks := []*types.Block{}
+	parent := n.Genesis
+	for i := 1; i <= depth; i++ {
+		var txs []interfaces.Transaction
+		if i == depth {
+			for j := 0; j < k; j++ {
+				txs = append(txs, revertTx(uint32(1000+j)))
+			}
+		}
+		b, err := n.Mine(parent, txs)
+		if err != nil {
+			panic("harness: mine: " + err.Error())
+		}
+		blocks = append(blocks, b)
+		parent = b
+	}
+	last := blocks[depth-1]
+	forged := &types.Block{Header: last.Header, Transactions: forgedList(mut, last, blocks[0])}
+	// as a peer sends it
+	forged = decodeBlock(blockHex(forged))
+	desc := describe(n.Chain, forged)
+	cls := func(main, orphan bool, err error) string {
+		switch {
+		case err != nil:
+			return classify(err)
+		case orphan:
+			return "orphan"
+		case main:
+			return "main"
+		}
+		return "side"
+	}
+	deliver := func(b *types.Block) (res string) {
+		defer func() {
+			if e := recover(); e != nil {
+				res = "panic"
+			}
+		}()
+		return strings.ReplaceAll(cls(n.Chain.ProcessBlock(b, nil)), " ", ":")
+	}
+	out := "first=" + deliver(forged)
+	for _, b := range blocks[:depth-1] {
+		if c := deliver(decodeBlock(blockHex(b))); c != "main" {
+			out += " parent=" + c
+		}
+	}
+	_, h := n.Tip()
+	ok := 1
+	for i := uint32(1); i <= h; i++ {
+		b, err := n.Chain.GetBlockByHeight(i)
+		if err != nil || !bound(b) {
+			ok = 0
+		}
+	}
+	return orphanRun{desc, fmt.Sprintf("%s tip=%d bound=%d", out, h, ok)}
+}
+
+func atoi(s string) int {
+	v := 0
+	for _, c := range s {
+		if c < '0' || c > '9' {
+			panic("harness: bad number " + s)
+		}
+		v = v*10 + int(c-'0')
+	}
+	return v
+}
+
 func decodeBlock(s string) *types.Block {
 	var b types.Block
 	if err := b.Deserialize(bytes.NewReader(hx.UnHex(s))); err != nil {
@@ -247,6 +416,13 @@ func exec(t []string) string {
 			return "oracle-mismatch"
 		}
 		return classify(c.CheckBlockSanity(b))
+	case "orphan":
+		depth, k := atoi(t[1]), atoi(t[2])
+		run := runOrphan(depth, k, t[3])
+		if run.desc != strings.Join(t[4:], " ") {
+			return "oracle-mismatch"
+		}
+		return run.out
 	}
 	panic("harness: unknown op " + t[0])
 }
@@ -370,6 +546,34 @@ func gen(g *hx.Gen) {
 	for _, n := range big {
 		leaves := r.Bytes(32 * n)
 		g.Emit("root %s", hx.Hex(leaves))
+	}
+
+	// ---- a forged block delivered before its parent (real ProcessBlock on a regnet node)
+	muts := []string{"none", "duptail", "duppair", "dupmid", "coinbase", "remove", "swap", "cb2", "insert", "empty"}
+	for i := 0; i < g.N(14, 120); i++ {
+		depth := 2 + r.Intn(2)
+		k := r.Intn(6)
+		mut := muts[i%len(muts)]
+		if (mut == "duptail" || mut == "duppair") && i%20 < 10 {
+			// make the duplication root preserving: odd count for the tail, 2 mod 4 for the pair
+			if mut == "duptail" {
+				k = 2 * (1 + r.Intn(3)) // 1 coinbase + k = odd
+			} else {
+				k = 1 + 4*r.Intn(2) // 2 or 6 transactions
+			}
+		}
+		switch mut {
+		case "none": // RevertToPOW passes the sanity check but not the context check at connect time:
+			k = 0 // honest out-of-order blocks are coinbase only, so that they do get connected
+		case "swap":
+			k = 2 + r.Intn(4)
+		case "coinbase", "cb2":
+			if i%20 < 10 {
+				k = 0 // context-valid forgeries: only the sanity check stands between them and the chain
+			}
+		}
+		run := runOrphan(depth, k, mut)
+		g.Emit("orphan %d %d %s %s", depth, k, mut, run.desc)
 	}
 
 	// ---- CheckBlockSanity
@@ -582,6 +786,13 @@ func oracle(t []string, out string) *hx.Violation {
 		if out != want {
 			return &hx.Violation{Kind: "root-differs", Detail: "ComputeRoot differs from the reference definition " + want}
 		}
+	case "orphan":
+		if strings.Contains(out, "panic") {
+			return &hx.Violation{Kind: "node-panic-on-out-of-order-block", Detail: "ProcessBlock panicked while connecting a block that was pooled as an orphan"}
+		}
+		if strings.Contains(out, "bound=0") {
+			return &hx.Violation{Kind: "chain-holds-unbound-block", Detail: "after out-of-order delivery the active chain contains a block whose transaction list does not belong to its header (root / coinbase position / duplicate id)"}
+		}
 	case "sanity":
 		if out != "ok" {
 			return nil
@@ -643,6 +854,9 @@ func refRoot(hs []common.Uint256) []byte {
 }
 
 func nontrivial(t []string, out string) bool {
+	if t[0] == "orphan" {
+		return true
+	}
 	if t[0] == "root" {
 		return len(t[1]) >= 128
 	}
@@ -661,6 +875,9 @@ func bucket(t []string, out string) string {
 			return "root/odd"
 		}
 		return "root/even"
+	}
+	if t[0] == "orphan" {
+		return "orphan/" + t[3] + "/" + strings.Fields(out)[0]
 	}
 	return "sanity/" + out
 }
